@@ -21,7 +21,7 @@ MANIFEST = {
 }
 
 RULE = ("fault: {types.ts, commands.ts, events.ts, index.ts, dependency-graph.txt, dependency-graph.dot, .typecache, output path is a "
-        "regular file} x {first run, run after a hashed output-changing edit} x {CLI, build} x {none, zod} x {visualize_deps on/off where "
+        "regular file} x {first run, run after a hashed output-changing edit, run over a matching record after the loss of that file and/or another one}; two consecutive faults at different writes;  x {CLI, build} x {none, zod} x {visualize_deps on/off where "
         "it matters} x 13 hashed edits; each followed by removal of the "
         "obstacle and two recovery runs. All cases are non-trivial; distinct = distinct case descriptions")
 TRUSTED = ["fault injection by pre-created directories / a regular file at the output path (no hook in /repo)",
@@ -52,60 +52,86 @@ def plan_of(desc):
     return p
 
 
+def place_obstacle(w, t, plan, steps):
+    """Make the write of t fail: a directory stands where the file is to be written (the file, if any, is lost);
+    t = <outdir>: a regular file stands where the output directory should be. Returns (fault index, is binding)."""
+    if t == "<outdir>":
+        if os.path.isdir(w.out()):
+            shutil.rmtree(w.out())
+            for n in C.BINDING_FILES + C.GRAPH_FILES:
+                steps.append(["delete", C.model_file_name(n)])
+            steps.append(["dropcache"])
+        open(w.out(), "w").write("not a directory")
+        return 0, True
+    os.makedirs(w.out(), exist_ok=True)
+    if os.path.isfile(w.out(t)):
+        os.remove(w.out(t))
+        steps.append(["dropcache"] if t == C.CACHE else ["delete", C.model_file_name(t)])
+    os.makedirs(w.out(t))
+    if t == C.CACHE:
+        return len(plan), False
+    if t in plan:
+        return plan.index(t), True
+    return None, False                 # this file is not written under these inputs: no fault occurs
+
+
+def remove_obstacle(w, t):
+    if t == "<outdir>":
+        os.remove(w.out())
+    else:
+        os.rmdir(w.out(t))
+
+
 def run_fault(case):
+    """timing: first | after_edit (run; hashed edit) | after_loss (run; nothing edited: the record matches, the fault
+    hits the regeneration the presence test asks for). lost: a further output file deleted before the faulty run.
+    second: after the first faulty run the obstacle moves to this target and a second faulty run follows."""
     desc = start_desc(case)
     sched = [[0], [0] if desc["cfg"].get("type_mappings") else []]
     steps, obs = [], {}
     with vlib.Sandbox("c17") as sb:
         w = C.World(sb, case["entry"])
         w.set_desc(desc)
-        if case["timing"] == "after_edit":
+        if case["timing"] in ("after_edit", "after_loss"):
             r0 = w.run()
             steps.append(["run", sched, False, None])
             obs["first"] = r0["decision"]
+        if case["timing"] == "after_edit":
             desc = C.apply_edit(desc, case["edit"])
             w.set_desc(desc)
             sched = [[0], [0] if desc["cfg"].get("type_mappings") else []]
             steps.append(["set", C.sx_project(desc), C.sx_cfg(desc["cfg"])])
         plan = plan_of(desc)
         t = case["target"]
-        # ---- the obstacle
-        if t == "<outdir>":
-            if os.path.isdir(w.out()):
-                shutil.rmtree(w.out())
-                for n in C.BINDING_FILES + C.GRAPH_FILES:
-                    steps.append(["delete", C.model_file_name(n)])
-                steps.append(["dropcache"])
-            open(w.out(), "w").write("not a directory")
-            k = 0
-            binding = True
-        else:
-            os.makedirs(w.out(), exist_ok=True)
-            if os.path.isfile(w.out(t)):
-                os.remove(w.out(t))
-                steps.append(["dropcache"] if t == C.CACHE else ["delete", C.model_file_name(t)])
-            os.makedirs(w.out(t))
-            if t == C.CACHE:
-                k, binding = len(plan), False
-            elif t in plan:
-                k, binding = plan.index(t), True
-            else:
-                k, binding = None, False           # this file is not written under these inputs: no fault occurs
-        # ---- the faulty run
-        rf = w.run()
-        steps.append(["run", sched, False, C.opt(k)])
-        rec = w.cache_record()
+        if case.get("lost") and os.path.isfile(w.out(case["lost"])):
+            os.remove(w.out(case["lost"]))
+            steps.append(["delete", C.model_file_name(case["lost"])])
+        k, binding = place_obstacle(w, t, plan, steps)
         ref = C.reference(desc, case["entry"])
         ref_rec = reference_record(desc, case["entry"])
-        vouches = bool(rec and ref_rec and rec.get("combined_hash") == ref_rec.get("combined_hash") and rec.get("version") == 1)
-        mi, di, _ = C.stale_files(w, desc) if os.path.isdir(w.out()) else (sorted(ref["files"]), [], [])
-        obs["fault"] = {"decision": rf["decision"], "rc": rf["rc"], "missing": mi, "different": di, "vouches": vouches,
-                        "rewritten": rf["rewritten"], "text": rf["text"][-300:]}
+
+        def state(r):
+            rec = w.cache_record()
+            matches = bool(rec and ref_rec and rec.get("combined_hash") == ref_rec.get("combined_hash") and rec.get("version") == 1)
+            # "the tool vouches": a non-forced run would answer up to date = matching record and every file of the plan a file
+            vouches = matches and all(os.path.isfile(w.out(n)) for n in plan)
+            mi, di, _ = C.stale_files(w, desc) if os.path.isdir(w.out()) else (sorted(ref["files"]), [], [])
+            return {"decision": r["decision"], "rc": r["rc"], "missing": mi, "different": di, "vouches": vouches,
+                    "record_matches": matches, "rewritten": r["rewritten"], "text": r["text"][-300:]}
+        # ---- the faulty run(s)
+        rf = w.run()
+        steps.append(["run", sched, False, C.opt(k)])
+        obs["fault"] = state(rf)
+        if case.get("second"):
+            remove_obstacle(w, t)
+            t = case["second"]
+            k2, binding2 = place_obstacle(w, t, plan, steps)
+            rf2 = w.run()
+            steps.append(["run", sched, False, C.opt(k2)])
+            obs["fault2"] = state(rf2)
+            obs["binding2"] = binding2
         # ---- remove the obstacle, recover
-        if t == "<outdir>":
-            os.remove(w.out())
-        else:
-            os.rmdir(w.out(t))
+        remove_obstacle(w, t)
         r1 = w.run()
         steps.append(["run", sched, False, None])
         mi1, di1, _ = C.stale_files(w, desc)
@@ -151,8 +177,9 @@ def eval_fault(cases):
     orc = vlib.run_runner("c17-oracle", q)
     outs = []
     for case, (_, o, desc), t, ok_s in zip(cases, res, tr, orc):
-        runs = t[-3:]
-        mf, mr, mr2 = runs
+        two = "fault2" in o
+        runs = t[-4:] if two else t[-3:]
+        mf, mr, mr2 = runs[0], runs[-2], runs[-1]
         f, r = o["fault"], o["recovery"]
         corr = (f["decision"] == mf[0] and sorted(C.model_file_name(n) for n in f["missing"]) == sorted(mf[1])
                 and set(C.model_file_name(n) for n in f["different"]) <= set(mf[2])
@@ -160,6 +187,11 @@ def eval_fault(cases):
                 and r["decision"] == mr[0] and not mr[1] and not mr[2] and not r["missing"] and not r["different"]
                 and o["recovery2"]["decision"] == mr2[0])
         ok = ok_s == "true" and o["recovery2"]["decision"] == "up_to_date"
+        if two:
+            f2, m2 = o["fault2"], runs[1]
+            corr = corr and f2["decision"] == m2[0] and sorted(C.model_file_name(n) for n in f2["missing"]) == sorted(m2[1]) \
+                and f2["vouches"] == (m2[4] == "true")
+            ok = ok and (f2["decision"] == "failed" or not o["binding2"]) and not (f2["vouches"] and (f2["missing"] or f2["different"]))
         detail = {"impl": o, "model": {"fault": mf, "recovery": mr, "recovery2": mr2}}
         if not (corr and ok):
             detail["sources"] = {fl["path"]: C.render_rs(fl) for fl in desc["files"]}
@@ -181,6 +213,21 @@ def fault_cases(tier, rng):
                         if e == "mode" and mode == "zod" and tier == "quick":
                             continue
                         cases.append({"entry": entry, "mode": mode, "viz": viz, "target": t, "timing": "after_edit", "edit": e})
+            # the record matches and a file is lost: the fault hits the regeneration the presence test asks for
+            for t in TARGETS:
+                for viz in ((True,) if t.startswith("dependency-graph") else (False, True)):
+                    cases.append({"entry": entry, "mode": mode, "viz": viz, "target": t, "timing": "after_loss"})
+                    for lost in ("index.ts", "events.ts", "types.ts"):
+                        if lost != t:
+                            cases.append({"entry": entry, "mode": mode, "viz": viz, "target": t, "timing": "after_loss", "lost": lost})
+            # two consecutive faults at different writes
+            for t, t2 in (("types.ts", "index.ts"), ("events.ts", "commands.ts"), ("index.ts", "dependency-graph.txt"),
+                          ("dependency-graph.dot", "events.ts"), ("commands.ts", C.CACHE), (C.CACHE, "types.ts")):
+                for timing in ("first", "after_edit", "after_loss"):
+                    c = {"entry": entry, "mode": mode, "viz": True, "target": t, "second": t2, "timing": timing}
+                    if timing == "after_edit":
+                        c["edit"] = "field_add"
+                    cases.append(c)
             # a project without events: events.ts is not in the plan, the obstacle is harmless
             cases.append({"entry": entry, "mode": mode, "viz": False, "target": "events.ts", "timing": "first", "no_events": True})
     return cases
